@@ -662,6 +662,11 @@ func stateBeginValue(s *Scanner, c byte) state { //nolint:gocyclo // It's okay.
 		s.switchToAnnotation()
 		return scanContinue
 	}
+	if s.isCommentStart(c) {
+		// A user comment may stand wherever an annotation may.
+		s.switchToComment()
+		return scanContinue
+	}
 	switch c {
 	case '{':
 		s.step = stateFoundObjectKeyBeginOrEmpty
@@ -820,6 +825,10 @@ func stateAfterObjectKey(s *Scanner, c byte) state {
 	}
 	if s.isAnnotationStart(c) {
 		s.switchToAnnotation()
+		return scanContinue
+	}
+	if s.isCommentStart(c) {
+		s.switchToComment()
 		return scanContinue
 	}
 
